@@ -1,9 +1,14 @@
 CONSTANTS
   MaxSites = 2
   Unique = TRUE
+  Kws = {"none", "s1", "s2", "traced", "param", "ab", "ba"}
+  Scopes = {"top", "body"}
 SPECIFICATION Spec
 INVARIANT DedupSound
 INVARIANT CallArity
+INVARIANT CallBinding
+INVARIANT NamesUnique
+INVARIANT ResolvedSound
 INVARIANT DistinctWhenDifferent
 INVARIANT EmitDone
 CHECK_DEADLOCK FALSE
